@@ -132,7 +132,8 @@ the assertion of `_gen_metadata` (`RTLIRConversionError`), and there is no other
 theorem emit_error_iff (H : Hier) (nb : Sig → List Sig) (c : Comp) (e : SConn.Err) :
     emit H nb c = .error e ↔
       e = .conversion ∧ ∃ x ∈ H.connectOrder c, ∀ y, (y = x ∨ y = (x.2, x.1)) → y ∈ treeEdges H nb → hostOf H y ≠ some c := by
-  unfold emit
+  unfold emit emitOf
+  change emitFrom (filed H nb c) _ = _ ↔ _
   rw [emitFrom_error_iff]
   constructor
   · rintro ⟨he, x, hx, h1, h2⟩
@@ -195,9 +196,9 @@ theorem accepted_stmts_are_tree_edges {H : Hier} {nb : Sig → List Sig} (hacc :
     ∀ e ∈ H.edges, e ∈ treeEdges H nb ∨ (e.2, e.1) ∈ treeEdges H nb := by
   intro e he
   obtain ⟨s, hs, rfl⟩ := List.mem_map.mp he
-  unfold accepted at hacc
+  unfold accepted acceptedOf at hacc
   simp only [Bool.and_eq_true, List.all_eq_true] at hacc
-  obtain ⟨y, hy⟩ := Option.isSome_iff_exists.mp (hacc.2 s hs)
+  obtain ⟨y, hy⟩ : ∃ y, orient (filed H nb s.1) s.2 = some y := Option.isSome_iff_exists.mp (hacc.2 s hs)
   obtain ⟨hf, ho⟩ := orient_eq_some hy
   have := (mem_filed.mp hf).1
   rcases ho with ho | ho
